@@ -82,7 +82,15 @@ Definition cert_of (c : config) (i : Z) : party :=
 (* operations whose value every party draws for itself *)
 Definition is_random_op (o : op) : bool :=
   match o with
-  | ORandom _ | ORandomPermutation _ | OCuckooToPermutation | ODecomposeSwitchingMap _ => true
+  | ORandom _ | ORandomPermutation _ => true
+  | _ => false
+  end.
+(* operations that compute from their dependencies AND from the evaluating party's own
+   randomness (simple_evaluator.rs: CuckooToPermutation shuffles the free slots,
+   DecomposeSwitchingMap draws random permutations) *)
+Definition is_randdep_op (o : op) : bool :=
+  match o with
+  | OCuckooToPermutation | ODecomposeSwitchingMap _ => true
   | _ => false
   end.
 (* operations that only route sub-values *)
@@ -123,24 +131,26 @@ Definition input_know (st : status) : know :=
       (* slot j is held by parties j and j-1 *)
   end.
 
+Definition is_uninlined (o : op) : bool :=
+  match o with OCall | OIterate | OCustom _ => true | _ => false end.
+
 Definition know_step (c : config) (acc : result (list node * list know * list status)) (nd : node)
   : result (list node * list know * list status) :=
   let* (before, ks, ins) := acc in
   let i := Z.of_nat (length before) in
   let dep_k d := match znth ks d with Ok k => k | _ => KLeaf pnone end in
+  let o := n_op nd in
   let* (k0, ins') :=
-    match n_op nd with
-    | OInput _ => match ins with st :: r => Ok (input_know st, r) | [] => Err end
-    | OCall | OIterate | OCustom _ => Err          (* only fully inlined graphs *)
-    | o =>
-        if is_random_op o then Ok (KLeaf (psingle (cert_of c i)), ins) else
-        match route_of (dep_types before (n_deps nd)) o, n_deps nd with
-        | RTuple, ds => Ok (KTup (map dep_k ds), ins)
-        | RNop, d :: _ => Ok (dep_k d, ins)
-        | RGet j, d :: _ => Ok (kget (dep_k d) j, ins)
-        | _, ds => Ok (KLeaf (fold_right (fun d acc => pinter (kmeet (dep_k d)) acc) pall ds), ins)
-        end
-    end in
+    if is_input o then match ins with st :: r => Ok (input_know st, r) | [] => Err end
+    else if is_uninlined o then Err          (* only fully inlined graphs *)
+    else if is_random_op o then Ok (KLeaf (psingle (cert_of c i)), ins)
+    else Ok (match route_of (dep_types before (n_deps nd)) o, n_deps nd with
+             | RTuple, ds => KTup (map dep_k ds)
+             | RNop, d :: _ => dep_k d
+             | RGet j, d :: _ => kget (dep_k d) j
+             | _, ds => KLeaf (let v := fold_right (fun d acc => pinter (kmeet (dep_k d)) acc) pall ds in
+                              if is_randdep_op o then pinter (psingle (cert_of c i)) v else v)
+             end, ins) in
   let k := fold_left (fun k sr => ksend (fst sr) (snd sr) k) (sends_of nd) k0 in
   Ok (before ++ [nd], ks ++ [k], ins').
 
@@ -175,7 +185,9 @@ Definition kreport (c : config) (nodes : list node) : result (list (Z * bool * b
 
 (* ------------------------------------------------------------------ three-party semantics *)
 Section Exec.
-  Variable sem : op -> list ty -> ty -> list value -> result value.
+  (* [sem o dts t vs r]: r is the evaluating party's own draw at this node; only the
+     is_randdep_op operations may depend on it *)
+  Variable sem : op -> list ty -> ty -> list value -> value -> result value.
 
   (* global (single-evaluator) run; [rho] gives the value of every Random-like node, [gin] the
      inputs in order.  None = the protocol itself fails (error, abort). *)
@@ -185,17 +197,15 @@ Section Exec.
     | None => None
     | Some (before, env, ins) =>
         let i := Z.of_nat (length before) in
+        let o := n_op nd in
         let r :=
-          match n_op nd with
-          | OInput _ => match ins with v :: r => Some (v, r) | [] => None end
-          | o =>
-              if is_random_op o then Some (rho i, ins) else
-              match mapM (fun d => znth env d) (n_deps nd) with
-              | Ok vs => match sem o (dep_types before (n_deps nd)) (n_ty nd) vs with
-                         | Ok v => Some (v, ins) | _ => None end
-              | _ => None
-              end
-          end in
+          if is_input o then match ins with v :: r => Some (v, r) | [] => None end
+          else if is_random_op o then Some (rho i, ins)
+          else match mapM (fun d => znth env d) (n_deps nd) with
+               | Ok vs => match sem o (dep_types before (n_deps nd)) (n_ty nd) vs (rho i) with
+                          | Ok v => Some (v, ins) | _ => None end
+               | _ => None
+               end in
         match r with
         | Some (v, ins') => Some (before ++ [nd], env ++ [v], ins')
         | None => None
@@ -206,7 +216,7 @@ Section Exec.
     | Some (_, env, _) => Some env | None => None end.
 
   (* one party's evaluation of one node from its own local values *)
-  Definition lnode (before : list node) (nd : node) (deps : list pval) : pval :=
+  Definition lnode (before : list node) (nd : node) (deps : list pval) (r : value) : pval :=
     match route_of (dep_types before (n_deps nd)) (n_op nd), deps with
     | RTuple, ds => PTup ds
     | RNop, d :: _ => d
@@ -215,7 +225,7 @@ Section Exec.
                         | _ => PPoison end
     | _, ds =>
         match mapM (fun d => match extract d with Some v => Ok v | None => Err end) ds with
-        | Ok vs => match sem (n_op nd) (dep_types before (n_deps nd)) (n_ty nd) vs with
+        | Ok vs => match sem (n_op nd) (dep_types before (n_deps nd)) (n_ty nd) vs r with
                    | Ok v => embed v | _ => PPoison end
         | _ => PPoison
         end
@@ -236,15 +246,13 @@ Section Exec.
     | None => None
     | Some (before, envs, ins) =>
         let i := Z.of_nat (length before) in
+        let o := n_op nd in
+        let one p :=
+          if is_random_op o then embed (tapes p i) else
+          lnode before nd (map (fun d => match znth (tget envs p) d with Ok x => x | _ => PPoison end) (n_deps nd)) (tapes p i) in
         let r :=
-          match n_op nd with
-          | OInput _ => match ins with v :: r => Some (v, r) | [] => None end
-          | o =>
-              let one p :=
-                if is_random_op o then embed (tapes p i) else
-                lnode before nd (map (fun d => match znth (tget envs p) d with Ok x => x | _ => PPoison end) (n_deps nd)) in
-              Some ((one 0, one 1, one 2), ins)
-          end in
+          if is_input o then match ins with v :: r => Some (v, r) | [] => None end
+          else Some ((one 0, one 1, one 2), ins) in
         match r with
         | Some (vals, ins') =>
             let vals' := fold_left (fun v sr => tset v (snd sr) (tget v (fst sr))) (sends_of nd) vals in
